@@ -11,6 +11,17 @@ REPO = os.environ.get("PYVC_REPO", "/repo")
 NATIVE_PY = "/venv/bin/python"
 
 PLANS = {
+    "C11": {
+        "level": "other",
+        "sidecars": [],
+        "extras": [{"name": "c11_effect_analysis", "module": "checks.effects", "func": "run", "python": "vt"},
+                   {"name": "c11_history", "module": "bounded.c11_history", "func": "run", "python": "venv"}],
+        "explanation": "Frame/effect analysis over the whole package: every site that iterates a hash-ordered collection, "
+                       "reads ambient process state (id, hash, time, random, environment) or writes module/class-level or "
+                       "default-argument state is an obligation, discharged only by a recorded argument; on this tree 2 "
+                       "sites exist and both are discharged. Syntactic and name based - the weakest deductive instance "
+                       "in this work, hence level 'other' - with a bounded native hash-seed / history experiment next to it.",
+    },
     "C05": {
         "level": "other",
         "sidecars": ["bonds", "debump", "quatfit"],
